@@ -22,10 +22,17 @@ _suspend = 0  # >0 while the monitor's own re-invocations run
 
 
 def _finite(*xs):
-    return all(isinstance(x, (int, float)) and not isinstance(x, bool) and math.isfinite(x) for x in xs)
+    """Real numbers of the kinds interval bounds come in: floats, ints of any size (nanosecond timestamps), Fractions."""
+    for x in xs:
+        if isinstance(x, bool):
+            return False
+        if isinstance(x, (int, F)):
+            continue
+        if not isinstance(x, (float, np.floating, np.integer)) or not math.isfinite(x):
+            return False
+    return True
 
 
-# ----------------------------------------------------------------- the oracle
 def model_intervals(i1, i2, abs_=None, rel=None):
     """Exact model. Returns (verdict, margin_is_ambiguous)."""
     s1, e1, s2, e2 = (F(x) for x in (*i1, *i2))
@@ -37,6 +44,8 @@ def model_intervals(i1, i2, abs_=None, rel=None):
         thr = F(rel) * min(e1 - s1, e2 - s2)
     scale = max(abs(x) for x in (s1, e1, s2, e2, thr, 1))
     ambiguous = abs(inter - thr) <= F(ULP_BAND_REL) * scale and inter != thr
+    if ambiguous and rel is None and all(isinstance(x, (int, F)) and not isinstance(x, bool) for x in (*i1, *i2)) and (abs_ is None or (isinstance(abs_, (int, F)) and not isinstance(abs_, bool))):
+        ambiguous = False      # exact number types in, exact max / min / subtract / compare: nothing is rounded
     # the band exists because a float implementation rounds; when every intermediate quantity (widths, threshold,
     # intersection) is itself a double, nothing is rounded and a miss of >= 2**-44 (relative) is decided
     if ambiguous and _representable(e1 - s1, e2 - s2, thr, inter, min(e1, e2), max(s1, s2)) and abs(inter - thr) >= F(1, 2 ** 44) * scale:
@@ -195,7 +204,7 @@ def judge_intervals(ctx, i1, i2, a, r):
     if ctx.every(spec, 3):
         calling.agree(ctx, "intervals_overlap", instrument.original(G.intervals_overlap), dict(interval1=tuple(i1), interval2=tuple(i2), **kw), spec,
                       same=lambda x, y: bool(x) == bool(y), variants={"numlike_thresholds": {k: calling.numlike(ctx.rng, v_) for k, v_ in kw.items()}} if kw else None)
-    if ctx.every(spec, 4):
+    if ctx.every(spec, 4) and all(isinstance(x, float) for x in (*i1, *i2)):
         # an interval is a pair: handed over as a list or an array it is the same interval
         stc, vc = _call(ctx, G.intervals_overlap, list(i1), np.array(i2, dtype=float), **kw)
         ctx.mon("intervals_overlap.containers")
@@ -414,6 +423,29 @@ def run(ctx):
             i1, i2 = i2, i1
         ctx.case(("intervals", "near_miss_exact", mode, "short" if d < 0 else "over" if d > 0 else "equal"),
                  {"kind": "intervals", "i1": list(i1), "i2": list(i2), "abs": a, "rel": r}, nontrivial=True)
+        judge_intervals(ctx, i1, i2, a, r)
+    # ---- exact number types: integer nanosecond timestamps (beyond 2**53, where floats are 256 apart) and Fractions;
+    # the predicate only needs max / min / subtract / compare, all of which are exact for them
+    for _ in range(ctx.scale(600, 3000)):
+        kind = rng.choice(["ns_int", "ns_int", "fraction"])
+        if kind == "ns_int":
+            T0 = rng.choice([1_700_000_000_000_000_000, 2 ** 60 + 12345, 9_007_199_254_740_993])
+            a0 = T0 + rng.randrange(0, 1000); a1 = a0 + rng.randrange(0, 400)
+            b0 = a0 + rng.randrange(-300, 500); b1 = b0 + rng.randrange(0, 400)
+            i1, i2 = (a0, a1), (b0, b1)
+            a = rng.choice([None, None, 0, 1, 50, 100, 101, rng.randrange(0, 300)])
+            r = None if a is not None else rng.choice([None, 0.25, 0.5, 1.0])
+        else:
+            q = F(1, 10 ** 20)
+            a0 = F(rng.randrange(0, 100), 7); a1 = a0 + rng.randrange(0, 5) * q + F(rng.randrange(0, 3), 3)
+            b0 = a1 + rng.choice([-2, -1, 0, 1, 2]) * q; b1 = b0 + F(rng.randrange(0, 3), 3)
+            i1, i2 = (a0, a1), (b0, b1)
+            a = rng.choice([None, None, q, 2 * q, F(1, 3)])
+            r = None
+        if rng.random() < 0.5:
+            i1, i2 = i2, i1
+        ctx.case(("intervals", "exact_types", kind, "abs" if a is not None else "rel" if r is not None else "none"),
+                 {"kind": "intervals", "i1": [str(x) for x in i1], "i2": [str(x) for x in i2], "abs": None if a is None else str(a), "rel": r, "types": kind}, nontrivial=True)
         judge_intervals(ctx, i1, i2, a, r)
     for typ in geoms.TYPES:
         for _ in range(ctx.scale(40, 200)):
